@@ -34,6 +34,7 @@ Truthful(c) ==
            lim == IF HasSlen(c.fn) /\ c.slen # HUGE THEN Min(c.slen, room) ELSE room
        IN c.s + Min(ScanLen(a, c.s, lim) + 1, lim) - 1 <= N
   /\ (c.s # NULLP /\ c.fn \in MemCpyFns \cup MemMoveFns /\ c.slen # HUGE) => c.s + c.slen - 1 <= N
+  /\ (c.s # NULLP /\ c.fn \in {"strcpyfld_s", "strcpyfldout_s"} /\ c.slen # HUGE /\ c.slen <= Eff(c.dmax)) => c.s + c.slen - 1 <= N   \* a field of slen elements
   /\ (c.s # NULLP /\ c.fn = "memccpy_s" /\ c.n # HUGE) => c.s + c.n - 1 <= N
 
 Init == st \in {[fn |-> "init", f |-> fn, d |-> d] : fn \in Fns, d \in 0..N}
